@@ -7,6 +7,7 @@ let run_scenario (sc : scenario) : string =
   | "SPECREPLAY" -> Store_drv.run_spec sc
   | "MC" -> Mc_drv.run sc
   | "MCREF" -> Mc_drv.run_ref sc
+  | "SIM" -> Sim_drv.run sc
   | c -> "UNSUPPORTED " ^ c ^ "\n"
 
 let () =
